@@ -45,6 +45,11 @@ namespace MenpoModel.C11.NP
 @[simp] theorem getItem_fn (c : Nat → M) (e : Nat) : getItem c e = c e := rfl
 @[simp] theorem setItem_fn_same (c : Nat → M) (e : Nat) (v : M) : (setItem c e v : Nat → M) e = v := by
   simp [setItem]
+/-- a conditional update of several variables, read back through its projections -/
+@[simp] theorem ite_fst {α β : Type} (c : Prop) [Decidable c] (x y : α × β) :
+    (if c then x else y).1 = if c then x.1 else y.1 := by split <;> rfl
+@[simp] theorem ite_snd {α β : Type} (c : Prop) [Decidable c] (x y : α × β) :
+    (if c then x else y).2 = if c then x.2 else y.2 := by split <;> rfl
 theorem setItem_fn_apply (c : Nat → M) (e : Nat) (v : M) (i : Nat) :
     (setItem c e v : Nat → M) i = if i = e then v else c i := rfl
 
